@@ -78,7 +78,7 @@ structure St where
   routes : List RouteSpec := []
   ord : Crng.Ord.M := []
   bad : List (Bytes × Bytes × String) := []      -- key ↦ (line, kind), unsorted
-  pending : List (Nat × String) := []            -- aggregator emissions not yet pumped (parked aggregators)
+  pending : List (Nat × Bytes) := []             -- aggregator emissions not yet pumped (parked aggregators)
 
 def isRegexLit (b : Bytes) : Option Bytes :=
   if b.length > 1 && b.head? == some 47 && b.getLast? == some 47 then some ((b.drop 1).take (b.length - 2)) else none
@@ -134,38 +134,39 @@ def showHits (s : St) (tag : String) (hits : List (Nat × List Nat)) (final : By
     | none => none
 
 /-- what aggregator `i` emits for one accepted point, flushed on its own -/
-def aggEmit (a : AggSpec) (name : Bytes) (bits ts : Nat) : List String :=
+def aggEmit (a : AggSpec) (name : Bytes) (bits ts : Nat) : List Bytes :=
   let nreHit := match a.nre with | some c => Crng.Rx.isMatch c name | none => false
   if nreHit then [] else
   match Crng.Rx.matchExpand a.re name a.fmt with
   | none => []
   | some outKey =>
     let v := Float.ofBits (UInt64.ofNat bits)
+    -- the harness's injected clock stands at 100000: a bucket at or below now - wait is closed (too old), as in AddOrCreate
+    if !(decide (ts - ts % a.interval > Crng.Agg.u64 (Crng.Agg.u64 100000 - a.wait))) then [] else
     match Crng.Agg.PS.new a.fn v ts with
     | none => []
     | some p =>
       match p.flush with
       | none => []
       | some rs =>
-        let key := String.fromUTF8! (ByteArray.mk outKey.toArray)
-        let em : Crng.Agg.Em := { ts := ts - ts % a.interval, key := key, res := rs }
-        Crng.Agg.Em.render em
+        -- names are byte strings (possibly not UTF-8): render with a one-character placeholder key and put the bytes back
+        let em : Crng.Agg.Em := { ts := ts - ts % a.interval, key := "K", res := rs }
+        (Crng.Agg.Em.render em).map fun l => outKey ++ l.toUTF8.toList.drop 1
 
 def strBytes (s : String) : Bytes := s.toUTF8.toList
 
-def insertStr (x : String) : List String → List String
+def insertStr (x : Bytes) : List Bytes → List Bytes
   | [] => [x]
-  | y :: t => if x < y then x :: y :: t else y :: insertStr x t
+  | y :: t => if bytesLt x y then x :: y :: t else y :: insertStr x t
 
 /-- route the (already sorted per aggregator) emissions through `dispatchAggregate`, as the relay does with aggregator output -/
-def routeEmissions (s : St) (ems : List (Nat × String)) : List String :=
+def routeEmissions (s : St) (ems : List (Nat × Bytes)) : List String :=
   let c := toCfg s
-  ems.flatMap fun (i, l) =>
-    let lb := strBytes l
+  ems.flatMap fun (i, lb) =>
     let ra := Crng.Tb.dispatchAggregate c (fun b => b.takeWhile (· != 32)) lb
     s!"a {i} {hex lb} unr={if ra.unroutable then 1 else 0}" :: showHits s "ad" ra.hits lb
 
-def sortedEmissions (s : St) (ems : List (Nat × String)) : List (Nat × String) :=
+def sortedEmissions (s : St) (ems : List (Nat × Bytes)) : List (Nat × Bytes) :=
   (List.range s.aggSpecs.length).flatMap fun i =>
     ((ems.filter (·.1 == i)).foldl (fun acc e => insertStr e.2 acc) []).map fun l => (i, l)
 
